@@ -39,7 +39,7 @@ class Neighbour:
     def slope_rep(self):
         """representative of the computed slope (only its order matters)"""
         if self.rel == "higher":
-            return -1.0 - self.k
+            return -1.0 - (self.idx - 10)
         if self.rel == "equal":
             return 0.0
         if self.slope_class == "zero":
@@ -50,10 +50,10 @@ class Neighbour:
 
     def elev_rep(self):
         if self.rel == "higher":
-            return 1.0 + self.k
+            return 1.0 + (self.idx - 10)
         if self.rel == "equal":
             return 0.0
-        return -1.0 - self.k
+        return -1.0 - (self.idx - 10)
 
     def label(self):
         s = "%s%s" % ("masked " if self.masked else "", self.rel)
@@ -93,6 +93,12 @@ def scenarios(kmax, with_centre_flags=True):
                 else [(False, False)]
             for cm, cb in flags:
                 out.append(Scenario(cm, cb, nbs))
+        if k == 2:
+            # the same node listed twice (wrap-around on a looped axis of two nodes)
+            for (m, r, c) in opts:
+                a, b = Neighbour(0, m, r, c), Neighbour(1, m, r, c)
+                b.idx = a.idx
+                out.append(Scenario(False, False, [a, b]))
     return out
 
 
@@ -188,7 +194,7 @@ class RouterWorld(World):
     def elev_of(self, idx):
         if idx == CENTRE:
             return Sym("elev", "c", 0.0)
-        n = self.nb_of(idx)
+        n = self.nb_of(idx)     # (a node listed twice has the same elevation in both entries)
         if n is None:
             raise AnalysisBroken("router model: elevation of unknown node %r" % (idx,))
         return Sym("elev", "n%d" % n.k, n.elev_rep())
@@ -228,10 +234,10 @@ class RouterWorld(World):
             return Sym("drop", (a.tag, b.tag), a.data - b.data)
         if op == "/" and ak == "drop" and bk == "dist":
             src, dst = a.tag
-            if src != "c" or b.tag != dst:
+            n = self.sc.nbs[int(b.tag[1:])]
+            if src != "c" or self.sc.nbs[int(dst[1:])].idx != n.idx:
                 raise AnalysisBroken("router model: slope from mismatched drop/distance %r / %r" % (a, b))
-            n = self.sc.nbs[int(dst[1:])]
-            return Sym("slope", dst, n.slope_rep())
+            return Sym("slope", b.tag, n.slope_rep())
         if op == "pow" and ak == "slope":
             if a.data <= 0 and not (a.data == 0.0):
                 raise AnalysisBroken("router model: pow of a non-positive slope")
